@@ -41,7 +41,21 @@ pub fn run(k: &str, c: &Value) -> Value {
                 Err(_) => json!({"panic": true}) };
             let split = if curve.is_closed() { pair(curve.split_closed_at_lengths(l0, l1)) } else { pair(curve.split_open_at_length(l0)) };
             let wrong = if curve.is_closed() { pair(curve.split_open_at_length(l0)) } else { pair(curve.split_closed_at_lengths(l0, l1)) };
-            json!({"src": cv(&curve), "l0": hx(l0), "l1": hx(l1), "lc": hx(lc), "s0": at(l0), "s1": at(l1),
+            // the airfoil edge extraction is a consumer of between_lengths: cut at the two ends of a spanning ray (here the
+            // stations at l0 and l1), keep the portion shorter than a fraction of the perimeter, whichever way the ray points
+            let edge_sub = match (curve.at_length(l0), curve.at_length(l1)) {
+                (Some(a), Some(b)) if (a.point() - b.point()).norm() > 1e-9 => {
+                    let (pa, pb) = (a.point(), b.point());
+                    let frac = c["frac"].as_f64().unwrap_or(0.4);
+                    let st = |f: engeom::Point2, t: engeom::Point2| engeom::airfoil::InscribedCircle::new(
+                        engeom::geom2::polyline2::SpanningRay::new(f, t), t, f, engeom::Circle2::new(0.5 * (f.x + t.x), 0.5 * (f.y + t.y), 0.5));
+                    let run = |f: engeom::Point2, t: engeom::Point2| match std::panic::catch_unwind(std::panic::AssertUnwindSafe(||
+                        engeom::airfoil::helpers::extract_edge_sub_curve(&curve, &st(f, t), Some(frac)))) { Ok(r) => ocv(&r), Err(_) => json!({"panic": true}) };
+                    json!({"la": hx(curve.at_closest_to_point(&pa).length_along()), "lb": hx(curve.at_closest_to_point(&pb).length_along()),
+                           "frac": hx(frac), "fwd": run(pa, pb), "rev": run(pb, pa)})
+                }
+                _ => Value::Null };
+            json!({"src": cv(&curve), "l0": hx(l0), "l1": hx(l1), "lc": hx(lc), "s0": at(l0), "s1": at(l1), "edge_sub": edge_sub,
                    "between": ocv(&bl), "control": ocv(&curve.between_lengths_by_control(l0, l1, lc)),
                    "trim_front": ocv(&curve.trim_front(l0)), "trim_back": ocv(&curve.trim_back(l0)),
                    "split": split, "split_wrong": wrong, "reversed": revv,
